@@ -24,6 +24,7 @@ DYCK = [p for n in range(1, 4) for p in dyck_paths(n)]     # 1+2+5 = 8 shapes of
 
 class Prop(BaseProp):
     ID = "C09"
+    PIPELINES = True      # a fixed share of the cases goes through cminx.main (-o and stdout) instead of the Documenter
     ANCHORS = ['cminx.aggregator:DocumentationAggregator.process_cpp_class', 'cminx.aggregator:DocumentationAggregator.process_cpp_member', 'cminx.aggregator:DocumentationAggregator.process_cpp_constructor', 'cminx.aggregator:DocumentationAggregator.process_cpp_attr', 'cminx.documentation_types:ClassDocumentation.process', 'cminx.documentation_types:AttributeDocumentation.process']
     LEVEL = "exploration"
     RULE = ("class structures: 1-5 sibling classes, nesting to depth 4, siblings after nested classes, attributes/"
